@@ -72,7 +72,8 @@ def benchmark_half(ctx):
 
 def process_half(ctx):
   """'... independent of wall-clock time, global random state, process ...': the same seeded benchmark configurations in
-  separate interpreter processes with different string-hash seeds, clock offsets and global RNG states."""
+  separate interpreter processes with different string-hash seeds, clock offsets, global RNG states, and after different
+  other studies (same rotated functions, other rotation seeds) were evaluated first in the process."""
   import json
   import os
   import subprocess
@@ -80,9 +81,9 @@ def process_half(ctx):
   verif = os.path.dirname(os.path.dirname(os.path.abspath(__file__)))
   runs = []
   procs = []
-  for hs, off in (('0', 0.0), ('1', 4321.5), ('2', 98765.25), ('random', 17.0)):
+  for hs, off, prelude in (('0', 0.0, 0), ('1', 4321.5, 7), ('2', 98765.25, 9), ('random', 17.0, 5)):
     env = dict(os.environ, PYTHONHASHSEED=hs, PYTHONPATH=os.pathsep.join([os.path.join(verif, 'envshim'), os.path.join(verif, 'lib')]))
-    procs.append((hs, off, subprocess.Popen([sys.executable, os.path.join(verif, 'lib', 'bench_child.py'), str(off)], env=env, stdout=subprocess.PIPE,
+    procs.append((hs, off, subprocess.Popen([sys.executable, os.path.join(verif, 'lib', 'bench_child.py'), str(off), str(prelude)], env=env, stdout=subprocess.PIPE,
                                              stderr=subprocess.PIPE, text=True)))
   import tlc
   for hs, off, p in procs:
